@@ -315,6 +315,16 @@ Definition cmd_cachert (args : list tok) : bytes :=
       let c0 := if sym_is proto "ipfix" then cache_after_ipfix empty_ccache small else cache_after_nf9 empty_ccache small in
       let c := get_cache (dump_doc c0) in
       s2l "T:" ++ cache_digest c ++ s2l " | " ++ run_hist proto c h2
+    else if sym_is mode "GEN2" then
+      (* S <setup> M <modifications> H <history>: save, restart, modify (re-announcements), save again, restart *)
+      let '(_, rm) := split_at_sym "M" rest in
+      let '(mods, h2) := split_at_sym "H" rm in
+      let '(setup1, _) := split_at_sym "M" r1 in
+      let c0 := if sym_is proto "ipfix" then cache_after_ipfix empty_ccache setup1 else cache_after_nf9 empty_ccache setup1 in
+      let c1 := get_cache (dump_doc c0) in
+      let c2 := if sym_is proto "ipfix" then cache_after_ipfix c1 mods else cache_after_nf9 c1 mods in
+      let c := get_cache (dump_doc c2) in
+      s2l "T:" ++ cache_digest c ++ s2l " | " ++ run_hist proto c h2
     else if sym_is mode "FULL" then
       let c0 := if sym_is proto "ipfix" then cache_after_ipfix empty_ccache setup else cache_after_nf9 empty_ccache setup in
       let c := get_cache (dump_doc c0) in
